@@ -69,6 +69,7 @@ func runBackend(thorough bool, budget time.Duration, only string) *backendResult
 	cc := newCaseCollector()
 	phase("tables", func() { tableChecks(cc) })
 	phase("group-cases", func() { groupCases(thorough, cc) })
+	phase("group-volume", func() { volumeCases(thorough, cc) })
 	var patternFindings []finding
 	phase("field-patterns", func() {
 		ev, cl := fieldPatternFamily(func(f finding) { patternFindings = append(patternFindings, f) })
